@@ -1,6 +1,7 @@
 """C18 — LIST/LSUB wildcard matching: correspondence of Model/Pattern.v with
 internal/server/utils/pattern.go, and the cost probe."""
 import json
+import re
 import common as C
 
 ALPHA = "aB/*%"
@@ -28,6 +29,122 @@ def gen_random(chk, n):
             t = "".join(rng.choice(atoms[:4] + ["INBOX", "inbox", "x/y"]) for _ in range(rng.randint(0, 6)))
         cases.append((p, t))
     return cases
+
+
+E2E_USER = "carol@example.com"
+E2E_SETS = [
+    (["Foo/Bar/Baz", "Foo/Qux"], ["Foo", "Foo/Bar", "Foo/Qux", "Zed"]),
+    (["A/B/C", "X", "A/B2"], ["A", "A/B", "A/B/C", "X"]),
+    (["inbox/x", "Foo", "Foo/a/b/c", "a//b", "/lead", "INBOX"], ["inbox2", "Foo", "Foo/a", "a//b"]),
+    (["INBOX", "Sent", "Pro/jects/2023", "Pro/Old"], ["Pro", "Pro/jects"]),
+]
+E2E_REFS = ["", "Foo", "Foo/", "Foo/Bar/", "A/B/", "A/", "/", "inbox", "%", "F*", "Pro/", "Pro/jects", "a/"]
+E2E_PATS = ["%", "*", "%/%", "Foo/%", "*/%", "%/Bar", "B%", "Qux", "/%", "INBOX", "in%", "%ox", "%/%/%", "*2023", "%B%", "/b"]
+
+
+def e2e_scenario(subs, boxes, pairs):
+    ops = [{"op": "open", "conn": "c", "kind": "tls"},
+           {"op": "send", "conn": "c", "data": "a0 LOGIN %s pw\r\n" % E2E_USER, "until": "tag:a0", "timeout_ms": 6000}]
+    t = 0
+    for d in ["INBOX", "Sent", "Drafts", "Trash", "Spam"]:
+        t += 1
+        ops.append({"op": "send", "conn": "c", "data": 'u%d UNSUBSCRIBE "%s"\r\n' % (t, d), "until": "tag:u%d" % t})
+    for n in subs:
+        t += 1
+        ops.append({"op": "send", "conn": "c", "data": 'u%d SUBSCRIBE "%s"\r\n' % (t, n), "until": "tag:u%d" % t})
+    for n in boxes:
+        t += 1
+        ops.append({"op": "send", "conn": "c", "data": 'u%d CREATE "%s"\r\n' % (t, n), "until": "tag:u%d" % t})
+    first = len(ops)
+    ops.append({"op": "sql", "store": "user_db_1", "q": "SELECT mailbox_name FROM subscriptions ORDER BY mailbox_name"})
+    ops.append({"op": "sql", "store": "user_db_1", "q": "SELECT name FROM mailboxes ORDER BY name"})
+    for i, (r, pt) in enumerate(pairs):
+        ops.append({"op": "send", "conn": "c", "data": 's%d LSUB "%s" "%s"\r\n' % (i, r, pt), "until": "tag:s%d" % i})
+        ops.append({"op": "send", "conn": "c", "data": 'l%d LIST "%s" "%s"\r\n' % (i, r, pt), "until": "tag:l%d" % i})
+    return ops, first
+
+
+LINE_RE = re.compile(rb'^\* (LIST|LSUB) \(([^)]*)\) "/" (.*)$')
+
+
+def parse_listing(recv):
+    """-> (ok, [(name, noselect)])"""
+    out = []
+    ok = False
+    for l in recv.split(b"\r\n"):
+        m = LINE_RE.match(l)
+        if m:
+            nm = m.group(3)
+            if nm.startswith(b'"') and nm.endswith(b'"') and len(nm) >= 2:
+                nm = re.sub(rb"\\(.)", rb"\1", nm[1:-1])
+            out.append((nm, b"\\Noselect" in m.group(2)))
+        elif re.match(rb"^[sl]\d+ OK ", l):
+            ok = True
+    return ok, out
+
+
+def run_e2e(chk):
+    """LSUB and LIST through a real IMAP session: reference + pattern against a
+    subscription list / mailbox list; the answered names (with and without
+    \\Noselect) are compared inside Coq with lsub_names / filter_mailboxes."""
+    rng = chk.rng
+    allpairs = [(r, p) for r in E2E_REFS for p in E2E_PATS]
+    scen = []
+    for (subs, boxes) in E2E_SETS:
+        if chk.tier == "quick":
+            must = [("Foo/", "%"), ("A/B/", "%"), ("Pro/", "%"), ("", "%"), ("", "*"), ("Foo", "%/%"), ("", "%/%"), ("inbox", "%")]
+            pairs = must + rng.sample(allpairs, 40)
+        else:
+            pairs = allpairs
+        ops, first = e2e_scenario(subs, boxes, pairs)
+        scen.append((ops, first, pairs))
+    res = C.run_many([o for (o, _, _) in scen], workers=4, timeout=600)
+    cases = []       # (kind, ref, pat, base list, impl noselect names, impl plain names)
+    for (ops, first, pairs), r in zip(scen, res):
+        if r.get("crashed"):
+            chk.broken_obligation("driver crashed in the C18 LSUB/LIST session suite: %s" % r.get("stderr", "")[:400])
+            return 0
+        obs = r["obs"]
+        subs = [C.unlatin(x[0]) if isinstance(x[0], str) else x[0] for x in (obs[first].get("rows") or [])]
+        boxes = [C.unlatin(x[0]) if isinstance(x[0], str) else x[0] for x in (obs[first + 1].get("rows") or [])]
+        for i, (rf, pt) in enumerate(pairs):
+            for kind, o, base in (("lsub", obs[first + 2 + 2 * i], subs), ("list", obs[first + 3 + 2 * i], boxes)):
+                ok, names = parse_listing(C.unlatin(o.get("recv", "")))
+                if not ok:
+                    chk.violation("%s %r %r was not answered OK: %r" % (kind.upper(), rf, pt, o.get("recv", "")[:200]),
+                                  {"suite": "e2e", "kind": kind, "reference": rf, "pattern": pt, "base": [b.decode("latin-1") for b in base]})
+                    continue
+                cases.append((kind, rf, pt, base, sorted(set(n for n, ns in names if ns)), sorted(n for n, ns in names if not ns)))
+    body = C.COQ_CASE_HEADER + "From Raven Require Import Base.Enum Model.Pattern.\n"
+    body += "Definition e2e_cases : list (bool * str * str * list str * list str * list str) := [\n%s].\n" % ";\n".join(
+        "(%s, %s, %s, %s, %s, %s)" % (C.coq_bool(k == "lsub"), C.coq_str(rf), C.coq_str(pt), C.coq_list([C.coq_str(x) for x in base]),
+                                      C.coq_list([C.coq_str(x) for x in ns]), C.coq_list([C.coq_str(x) for x in pl])) for (k, rf, pt, base, ns, pl) in cases)
+    body += ("Definition set_eqb (a b : list str) := forallb (fun x => mem_str x b) a && forallb (fun x => mem_str x a) b.\n"
+             "Definition e2e_ok (c : bool * str * str * list str * list str * list str) : bool := let '(k, rf, pt, base, ns, pl) := c in\n"
+             "  if k then let '(i, m) := lsub_names base rf pt in set_eqb i ns && set_eqb m pl && Nat.eqb (length m) (length pl)\n"
+             "  else match ns with [] => true | _ => false end && set_eqb (filter_mailboxes base rf pt) pl && Nat.eqb (length (filter_mailboxes base rf pt)) (length pl).\n"
+             "Definition e2e_diff := Eval vm_compute in diff_positions Bool.eqb 0 (map (fun _ => true) e2e_cases) (map e2e_ok e2e_cases).\nPrint e2e_diff.\n")
+    rc, log = C.coq_eval_cases("C18", body)
+    if rc != 0:
+        chk.broken_obligation("in-Coq evaluation of the C18 LSUB/LIST session cases failed:\n" + log[-2000:])
+        return 0
+    txt = C.parse_coq_list_out(log, "e2e_diff")
+    if txt is None:
+        chk.broken_obligation("could not read e2e_diff from Coq output:\n" + log[-1500:])
+        return 0
+    txt = txt.strip()
+    bad = [] if txt == "[]" else [int(x) for x in txt.strip("[]").replace("%nat", "").split(";") if x.strip()]
+    for i in bad[:4]:
+        k, rf, pt, base, ns, pl = cases[i]
+        chk.violation("%s %r %r over %s answered \\Noselect %s and %s; the model of the handler (proved to be the RFC 3501 relation) answers differently"
+                      % (k.upper(), rf, pt, [x.decode("latin-1") for x in base], [x.decode("latin-1") for x in ns], [x.decode("latin-1") for x in pl]),
+                      {"suite": "e2e", "kind": k, "reference": rf, "pattern": pt, "base": [x.decode("latin-1") for x in base],
+                       "noselect": [x.decode("latin-1") for x in ns], "plain": [x.decode("latin-1") for x in pl]})
+    chk.cov["e2e_session_cases"] = len(cases)
+    chk.cov["e2e_lsub_with_implied_parent"] = sum(1 for c in cases if c[0] == "lsub" and c[4])
+    chk.cov["e2e_nonempty_answers"] = sum(1 for c in cases if c[5] or c[4])
+    chk.cov["e2e_disagreements"] = len(bad)
+    return len(cases)
 
 
 def run(chk):
@@ -143,7 +260,11 @@ def run(chk):
                 continue
             chk.violation("%s: implementation result %r differs from the model (proved equal to the RFC relation) on %r" % (name, impl[i], cases[i]),
                           {"suite": name, "case": cases[i], "impl": str(impl[i])})
-    chk.cov["disagreements_checked"] = nd
+    ne2e = run_e2e(chk)
+    chk.cov["evaluations"] += ne2e
+    chk.cov["disagreements_checked"] = nd + chk.cov.get("e2e_disagreements", 0)
+    chk.cov["rule"] += ("; plus LSUB and LIST through a real IMAP session (subscription lists with unsubscribed parents, references with and without trailing delimiter, "
+                        "patterns with %, * and literals): answered names with and without \\Noselect compared with Model/Pattern.lsub_names / filter_mailboxes")
 
     # ---- cost probe on the implementation (supporting evidence for the cost model)
     worst = 0
@@ -168,6 +289,14 @@ def replay(path):
     if d.get("suite") == "cost":
         r = C.run_ops([{"op": "timed_match", "text": d["text"], "pattern": d["pattern"]}], timeout=30)
         print(r)
+        return 0
+    if d.get("suite") == "e2e":
+        subs = d["base"] if d["kind"] == "lsub" else []
+        boxes = d["base"] if d["kind"] == "list" else []
+        ops, first = e2e_scenario(subs, [b for b in boxes if b not in ("INBOX", "Sent", "Drafts", "Trash", "Spam")], [(d["reference"], d["pattern"])])
+        r = C.run_ops(ops)
+        o = r["obs"][first + (2 if d["kind"] == "lsub" else 3)]
+        print(o.get("recv"))
         return 0
     if d.get("suite") == "rand_diff":
         p, t = d["case"]
